@@ -810,6 +810,29 @@ def run(shard, ctx):
 
     idx, nsh = int(shard['index']), int(shard.get('nshards', N_SHARDS))
     rng = np.random.Generator(np.random.PCG64([shard['seed'], idx, 20]))
+    # History probe: do to earlier results what a caller may do (in-place arithmetic on the returned
+    # variables). Lookups and the reference wavelength must be unaffected, so everything judged below runs
+    # after this; on a tree where results are independent objects this is a no-op.
+    try:
+        w = A.reference_wavelength()
+        w *= 2
+        for name in ('V', 'Cd', 'H', '3He'):
+            p_ = A.ScatteringParams.for_isotope(name)
+            for f in ('absorption_cross_section', 'total_scattering_cross_section',
+                      'coherent_scattering_length_re'):
+                v = getattr(p_, f)
+                if v is not None:
+                    v *= 3
+            a_ = A.Atom.for_isotope(name)
+            for f in ('atomic_weight', 'atomic_mass'):
+                try:
+                    v = getattr(a_, f)
+                    v *= 3
+                except ValueError:
+                    pass
+        ctx.count('history probe: earlier results mutated in place before the judged lookups')
+    except Exception as e:  # noqa: BLE001
+        ctx.count(f'history probe could not mutate: {type(e).__name__}')
     J = Judge(ctx, A.Atom, A.ScatteringParams)
     origin = {'v': 'direct'}
 
